@@ -11,10 +11,20 @@ use std::net::{Ipv4Addr, Ipv6Addr, SocketAddrV4, SocketAddrV6};
 
 use crate::{
   dds::qos::{policy::*, QosPolicies},
+  dds::qos::HasQoSPolicy,
   discovery::{
     builtin_endpoint::{BuiltinEndpointQos, BuiltinEndpointSet},
+    content_filter_property::ContentFilterProperty,
+    sedp_messages::{
+      DiscoveredReaderData, DiscoveredTopicData, DiscoveredWriterData, ParticipantMessageData,
+      ParticipantMessageDataKind, PublicationBuiltinTopicData, ReaderProxy,
+      SubscriptionBuiltinTopicData, TopicBuiltinTopicData, WriterProxy,
+    },
     spdp_participant_data::SpdpDiscoveredParticipantData,
   },
+  dds::adapters::no_key::SerializerAdapter,
+  serialization::{deserialize_from_cdr_with_rep_id, CDRSerializerAdapter},
+  structure::guid::GuidPrefix,
   messages::{
     protocol_version::ProtocolVersion,
     submessages::elements::{parameter::Parameter, parameter_list::ParameterList},
@@ -279,6 +289,129 @@ fn gen_spdp(r: &mut Rng, mask: u32, wf: bool) -> SpdpDiscoveredParticipantData {
   }
 }
 
+fn gen_content_filter(r: &mut Rng) -> ContentFilterProperty {
+  let n = match r.below(4) {
+    0 => 0,
+    1 => 1,
+    _ => r.range(2, 4),
+  };
+  ContentFilterProperty {
+    content_filtered_topic_name: gen_string(r),
+    related_topic_name: gen_string(r),
+    filter_class_name: if r.chance(1, 2) { "DDSSQL".to_string() } else { gen_string(r) },
+    filter_expression: gen_string(r),
+    expression_parameters: (0..n).map(|_| gen_string(r)).collect(),
+  }
+}
+
+const ENDPOINT_QOS_MASK: u32 = 0xFFF & !(1 << 9) & !(1 << 10); // no history, no resource limits
+const TOPIC_QOS_MASK: u32 = 0xFFF & !(1 << 6); // no time based filter
+
+/// mask bits 0..11 qos, 12 expects_inline_qos, 13 unicast, 14 multicast, 15 participant key,
+/// 16 content filter
+fn gen_reader(r: &mut Rng, mask: u32, wf: bool) -> DiscoveredReaderData {
+  let p = |i: usize| mask & (1 << i) != 0;
+  let guid = gen_guid(r);
+  let key = if wf { guid } else { gen_guid(r) };
+  let qos = gen_qos(r, mask & ENDPOINT_QOS_MASK);
+  DiscoveredReaderData {
+    reader_proxy: ReaderProxy::new(guid, p(12), gen_locators(r, p(13), wf), gen_locators(r, p(14), wf)),
+    subscription_topic_data: SubscriptionBuiltinTopicData::new(
+      key,
+      if p(15) { Some(gen_guid(r)) } else { None },
+      gen_string(r),
+      gen_string(r),
+      &qos,
+      None,
+    ),
+    content_filter: if p(16) { Some(gen_content_filter(r)) } else { None },
+  }
+}
+
+/// mask bits 0..11 qos, 12 max size, 13 unicast, 14 multicast, 15 participant key,
+/// 16 service instance name, 17 related reader, 18 topic aliases
+fn gen_writer(r: &mut Rng, mask: u32, wf: bool) -> DiscoveredWriterData {
+  let p = |i: usize| mask & (1 << i) != 0;
+  let guid = gen_guid(r);
+  let key = if wf { guid } else { gen_guid(r) };
+  let qos = gen_qos(r, mask & ENDPOINT_QOS_MASK);
+  let mut pbtd = PublicationBuiltinTopicData::new_with_qos(
+    key,
+    if p(15) { Some(gen_guid(r)) } else { None },
+    gen_string(r),
+    gen_string(r),
+    &qos,
+    None,
+  );
+  if p(16) {
+    pbtd.service_instance_name = Some(gen_string(r));
+  }
+  if p(17) {
+    pbtd.related_datareader_key = Some(gen_guid(r));
+  }
+  if p(18) {
+    let n = if wf { r.range(1, 3) } else { r.range(0, 1) };
+    pbtd.topic_aliases = Some((0..n).map(|_| gen_string(r)).collect());
+  }
+  DiscoveredWriterData {
+    last_updated: std::time::Instant::now(),
+    writer_proxy: WriterProxy {
+      remote_writer_guid: guid,
+      unicast_locator_list: gen_locators(r, p(13), wf),
+      multicast_locator_list: gen_locators(r, p(14), wf),
+      data_max_size_serialized: if p(12) {
+        Some(if r.chance(1, 2) { r.next() as u32 } else { *r.pick(&[0u32, 1, 65536, u32::MAX]) })
+      } else {
+        None
+      },
+    },
+    publication_topic_data: pbtd,
+  }
+}
+
+/// mask bits 0..11 qos, 12 key
+fn gen_topic(r: &mut Rng, mask: u32) -> DiscoveredTopicData {
+  let qos = gen_qos(r, mask & TOPIC_QOS_MASK);
+  DiscoveredTopicData::new(
+    chrono::Utc::now(),
+    TopicBuiltinTopicData::new(
+      if mask & (1 << 12) != 0 { Some(gen_guid(r)) } else { None },
+      gen_string(r),
+      gen_string(r),
+      &qos,
+    ),
+  )
+}
+
+fn gen_pmd(r: &mut Rng) -> ParticipantMessageData {
+  let mut prefix = [0u8; 12];
+  for x in prefix.iter_mut() {
+    *x = r.next() as u8;
+  }
+  let kind = match r.below(4) {
+    0 => ParticipantMessageDataKind::UNKNOWN,
+    1 => ParticipantMessageDataKind::AUTOMATIC_LIVELINESS_UPDATE,
+    2 => ParticipantMessageDataKind::MANUAL_LIVELINESS_UPDATE,
+    _ => {
+      // vendor-specific kinds: the field is private, the serde impl is the only constructor
+      let b = [0x80 | (r.next() as u8), r.next() as u8, r.next() as u8, r.next() as u8];
+      deserialize_from_cdr_with_rep_id::<ParticipantMessageDataKind>(&b, RepresentationIdentifier::CDR_LE)
+        .unwrap()
+        .0
+    }
+  };
+  let n = match r.below(4) {
+    0 | 1 => 0,
+    2 => r.range(1, 5) as usize,
+    _ => r.range(6, 40) as usize,
+  };
+  ParticipantMessageData {
+    guid: GuidPrefix { bytes: prefix },
+    kind,
+    data: (0..n).map(|_| r.next() as u8).collect(),
+  }
+}
+
 /// every parameter id named in structure/parameter_id.rs: "the known set"
 const ALL_PIDS: [u16; 64] = [
   0x0000, 0x0001, 0x002c, 0x0005, 0x0007, 0x002d, 0x002e, 0x001d, 0x001e, 0x0023, 0x0027, 0x001b,
@@ -492,6 +625,86 @@ fn coq_spdp(v: &SpdpDiscoveredParticipantData) -> String {
   )
 }
 
+fn coq_opt_guid(g: &Option<GUID>) -> String {
+  util::opt(g.as_ref().map(coq_guid))
+}
+
+fn coq_content_filter(c: &ContentFilterProperty) -> String {
+  format!(
+    "(Build_content_filter {} {} {} {} {})",
+    coq_str(&c.content_filtered_topic_name),
+    coq_str(&c.related_topic_name),
+    coq_str(&c.filter_class_name),
+    coq_str(&c.filter_expression),
+    util::list(c.expression_parameters.iter().map(|s| coq_str(s)))
+  )
+}
+
+fn coq_reader(v: &DiscoveredReaderData) -> String {
+  let s = &v.subscription_topic_data;
+  format!(
+    "(Build_reader_data {} {} {} {} {} {} {} {} {} {})",
+    coq_guid(&v.reader_proxy.remote_reader_guid),
+    util::b(v.reader_proxy.expects_inline_qos),
+    coq_locators(&v.reader_proxy.unicast_locator_list),
+    coq_locators(&v.reader_proxy.multicast_locator_list),
+    coq_guid(&s.key()),
+    coq_opt_guid(s.participant_key()),
+    coq_str(s.topic_name()),
+    coq_str(s.type_name()),
+    coq_qos(&s.qos()),
+    util::opt(v.content_filter.as_ref().map(coq_content_filter)),
+  )
+}
+
+fn coq_writer(v: &DiscoveredWriterData) -> String {
+  let p = &v.publication_topic_data;
+  format!(
+    "(Build_writer_data {} {} {} {} {} {} {} {} {} {} {} {})",
+    coq_guid(&v.writer_proxy.remote_writer_guid),
+    coq_locators(&v.writer_proxy.unicast_locator_list),
+    coq_locators(&v.writer_proxy.multicast_locator_list),
+    util::opt(v.writer_proxy.data_max_size_serialized.map(|x| format!("{}", x))),
+    coq_guid(&p.key),
+    coq_opt_guid(&p.participant_key),
+    coq_str(&p.topic_name),
+    coq_str(&p.type_name),
+    coq_qos(&p.qos()),
+    util::opt(p.service_instance_name.as_ref().map(|s| coq_str(s))),
+    coq_opt_guid(&p.related_datareader_key),
+    util::opt(p.topic_aliases.as_ref().map(|l| util::list(l.iter().map(|s| coq_str(s))))),
+  )
+}
+
+fn coq_topic(v: &DiscoveredTopicData) -> String {
+  let t = &v.topic_data;
+  format!(
+    "(Build_topic_data {} {} {} {})",
+    coq_opt_guid(&t.key),
+    coq_str(&t.name),
+    coq_str(&t.type_name),
+    coq_qos(&t.qos()),
+  )
+}
+
+/// all the numbers in a derived Debug output (private array field)
+fn debug_bytes<T: std::fmt::Debug>(x: &T) -> Vec<u8> {
+  let s = format!("{:?}", x);
+  s.split(|c: char| !c.is_ascii_digit())
+    .filter(|t| !t.is_empty())
+    .map(|t| t.parse::<u8>().expect("byte in Debug output"))
+    .collect()
+}
+
+fn coq_pmd(v: &ParticipantMessageData) -> String {
+  format!(
+    "(Build_pmd {} {} {})",
+    util::bytes(&v.guid.bytes),
+    util::bytes(&debug_bytes(&v.kind)),
+    util::bytes(&v.data)
+  )
+}
+
 fn coq_ins(ins: &[(usize, u16, Vec<u8>)]) -> String {
   util::list(
     ins
@@ -514,12 +727,20 @@ fn coq_outcome(x: &Option<String>) -> String {
 enum Val {
   Qos(QosPolicies),
   Spdp(SpdpDiscoveredParticipantData),
+  Reader(DiscoveredReaderData),
+  Writer(DiscoveredWriterData),
+  Topic(DiscoveredTopicData),
+  Pmd(ParticipantMessageData),
 }
 
 #[derive(Clone, Copy, PartialEq, Eq, Debug)]
 enum Kind {
   Qos,
   Spdp,
+  Reader,
+  Writer,
+  Topic,
+  Pmd,
 }
 
 impl Kind {
@@ -527,6 +748,10 @@ impl Kind {
     match self {
       Kind::Qos => "KQos",
       Kind::Spdp => "KSpdp",
+      Kind::Reader => "KReader",
+      Kind::Writer => "KWriter",
+      Kind::Topic => "KTopic",
+      Kind::Pmd => "KPmd",
     }
   }
 }
@@ -536,12 +761,20 @@ impl Val {
     match self {
       Val::Qos(_) => Kind::Qos,
       Val::Spdp(_) => Kind::Spdp,
+      Val::Reader(_) => Kind::Reader,
+      Val::Writer(_) => Kind::Writer,
+      Val::Topic(_) => Kind::Topic,
+      Val::Pmd(_) => Kind::Pmd,
     }
   }
   fn coq(&self) -> String {
     match self {
       Val::Qos(q) => format!("(VQos {})", coq_qos(q)),
       Val::Spdp(v) => format!("(VSpdp {})", coq_spdp(v)),
+      Val::Reader(v) => format!("(VReader {})", coq_reader(v)),
+      Val::Writer(v) => format!("(VWriter {})", coq_writer(v)),
+      Val::Topic(v) => format!("(VTopic {})", coq_topic(v)),
+      Val::Pmd(v) => format!("(VPmd {})", coq_pmd(v)),
     }
   }
   /// the real serialiser
@@ -553,6 +786,19 @@ impl Val {
         pl.serialize_to_bytes(e).ok().map(|b| b.to_vec())
       }
       Val::Spdp(v) => v.to_pl_cdr_bytes(rep_id(e)).ok().map(|b| b.to_vec()),
+      Val::Reader(v) => v.to_pl_cdr_bytes(rep_id(e)).ok().map(|b| b.to_vec()),
+      Val::Writer(v) => v.to_pl_cdr_bytes(rep_id(e)).ok().map(|b| b.to_vec()),
+      Val::Topic(v) => v.to_pl_cdr_bytes(rep_id(e)).ok().map(|b| b.to_vec()),
+      Val::Pmd(v) => match e {
+        Endianness::LittleEndian => {
+          CDRSerializerAdapter::<ParticipantMessageData, byteorder::LittleEndian>::to_bytes(v)
+        }
+        Endianness::BigEndian => {
+          CDRSerializerAdapter::<ParticipantMessageData, byteorder::BigEndian>::to_bytes(v)
+        }
+      }
+      .ok()
+      .map(|b| b.to_vec()),
     }
   }
 }
@@ -575,6 +821,16 @@ fn decode(kind: Kind, e: Endianness, bytes: &[u8]) -> Option<Val> {
     Kind::Spdp => SpdpDiscoveredParticipantData::from_pl_cdr_bytes(bytes, rep_id(e))
       .ok()
       .map(Val::Spdp),
+    Kind::Reader => DiscoveredReaderData::from_pl_cdr_bytes(bytes, rep_id(e)).ok().map(Val::Reader),
+    Kind::Writer => DiscoveredWriterData::from_pl_cdr_bytes(bytes, rep_id(e)).ok().map(Val::Writer),
+    Kind::Topic => DiscoveredTopicData::from_pl_cdr_bytes(bytes, rep_id(e)).ok().map(Val::Topic),
+    Kind::Pmd => {
+      let rid = match e {
+        Endianness::LittleEndian => RepresentationIdentifier::CDR_LE,
+        Endianness::BigEndian => RepresentationIdentifier::CDR_BE,
+      };
+      deserialize_from_cdr_with_rep_id::<ParticipantMessageData>(bytes, rid).ok().map(|x| Val::Pmd(x.0))
+    }
   }
 }
 
@@ -597,7 +853,7 @@ fn with_foreign(e: Endianness, bytes: &[u8], ins: &[(usize, u16, Vec<u8>)]) -> O
 // ------------------------------------------------------------------------------------------
 
 fn header() -> &'static str {
-  "From Coq Require Import List ZArith.\nFrom RD Require Import Common.Corr C15.Prim C15.PL C15.Qos C15.Disc C15.Model.\nImport ListNotations.\nOpen Scope Z_scope."
+  "From Coq Require Import List ZArith.\nFrom RD Require Import Common.Corr C15.Prim C15.PL C15.Qos C15.Disc C15.Sedp C15.Model.\nImport ListNotations.\nOpen Scope Z_scope."
 }
 
 fn emit_val(
@@ -622,9 +878,13 @@ fn emit_val(
   let res = catch_unwind(AssertUnwindSafe(|| {
     let bytes = v.encode(e)?;
     let d1 = decode(v.kind(), e, &bytes).map(|x| x.coq());
-    let d2 = match with_foreign(e, &bytes, ins) {
-      Some(b2) => decode(v.kind(), e, &b2).map(|x| x.coq()),
-      None => None,
+    let d2 = if v.kind() == Kind::Pmd {
+      d1.clone() // plain CDR: no parameter list, nothing to insert
+    } else {
+      match with_foreign(e, &bytes, ins) {
+        Some(b2) => decode(v.kind(), e, &b2).map(|x| x.coq()),
+        None => None,
+      }
     };
     Some((bytes, d1, d2))
   }));
@@ -794,15 +1054,62 @@ fn corpus() -> Vec<(Endianness, Val, Ins)> {
       Locator::Other { kind: -1, port: 3, address: [1; 16] },
     ];
     v.push((e, Val::Spdp(p), vec![]));
+    // writer_rpc_fields: the witness of C15_writer_old_refuted (fields written but not read back
+    // before the repair) and its neighbours
+    for m in [1u32 << 16, 1 << 17, 1 << 18, 7 << 16, 0, 0x7FFFF] {
+      let mut w = gen_writer(&mut r, m, true);
+      if m == 1 << 16 {
+        w.publication_topic_data.service_instance_name = Some("svc".to_string());
+      }
+      v.push((e, Val::Writer(w), vec![(3, 0x8002, vec![1, 2, 3, 4])]));
+    }
+    // reader / topic / participant message: nothing optional, everything optional
+    v.push((e, Val::Reader(gen_reader(&mut r, 0, true)), vec![]));
+    v.push((e, Val::Reader(gen_reader(&mut r, 0x1FFFF, true)), vec![(0, 0xFF00, vec![0; 12])]));
+    v.push((e, Val::Topic(gen_topic(&mut r, 0)), vec![]));
+    v.push((e, Val::Topic(gen_topic(&mut r, 0x1FFF)), vec![(1, 0x8100, vec![])]));
+    v.push((e, Val::Pmd(gen_pmd(&mut r)), vec![]));
+    v.push((
+      e,
+      Val::Pmd(ParticipantMessageData {
+        guid: GuidPrefix { bytes: [7; 12] },
+        kind: ParticipantMessageDataKind::MANUAL_LIVELINESS_UPDATE,
+        data: vec![],
+      }),
+      vec![],
+    ));
+    // an empty alias list writes no parameter (outside the theorem's hypothesis, model agrees)
+    let mut w = gen_writer(&mut r, 0, true);
+    w.publication_topic_data.topic_aliases = Some(vec![]);
+    v.push((e, Val::Writer(w), vec![]));
+    // inconsistent GUIDs in proxy and topic data: only the proxy's travels (warn! in the code)
+    v.push((e, Val::Reader(gen_reader(&mut r, 0, false)), vec![]));
   }
   v
 }
 
+fn mask_tags(prefix: &str, mask: u32, from: usize, to: usize) -> Vec<String> {
+  let mut tags = vec![format!("{}_optional_present:{}", prefix, (mask >> from).count_ones())];
+  for i in from..to {
+    if mask & (1 << i) != 0 {
+      tags.push(format!("{}_present:{}", prefix, i));
+    }
+  }
+  tags
+}
+
 fn gen_value(r: &mut Rng, k: usize) -> (Val, Vec<String>) {
   // which type: fixed rotation so that every type gets a stable share of the budget
-  match k % 2 {
-    0 => {
-      let j = (k / 2) as u32;
+  let j = (k / 16) as u32;
+  let wf = !r.chance(1, 10);
+  let wf_tag = |tags: &mut Vec<String>| {
+    if !wf {
+      tags.push("outside_hypothesis_values_allowed".to_string());
+    }
+  };
+  match k % 16 {
+    0 | 1 | 2 | 3 => {
+      let j = j * 4 + (k % 16) as u32;
       // present/absent stratification: an odd multiplier walks through all 4096 masks
       let mask = (j.wrapping_mul(2654435761) >> 7) & 0xFFF;
       let mask = if j % 16 == 0 { (j / 16) & 0xFFF } else { mask };
@@ -814,21 +1121,33 @@ fn gen_value(r: &mut Rng, k: usize) -> (Val, Vec<String>) {
       }
       (Val::Qos(gen_qos(r, mask)), tags)
     }
-    _ => {
-      let j = (k / 2) as u32;
+    4 | 5 | 6 => {
+      let j = j * 3 + (k % 16 - 4) as u32;
       let mask = (j.wrapping_mul(40503) >> 3) & 0x1FF;
-      let wf = !r.chance(1, 10);
-      let mut tags = vec![format!("spdp_optional_present:{}", mask.count_ones())];
-      for i in 0..SPDP_FIELDS {
-        if mask & (1 << i) != 0 {
-          tags.push(format!("spdp_present:{}", i));
-        }
-      }
-      if !wf {
-        tags.push("unrepresentable_locators_allowed".to_string());
-      }
+      let mut tags = mask_tags("spdp", mask, 0, SPDP_FIELDS);
+      wf_tag(&mut tags);
       (Val::Spdp(gen_spdp(r, mask, wf)), tags)
     }
+    7 | 8 | 9 => {
+      let j = j * 3 + (k % 16 - 7) as u32;
+      let mask = (j.wrapping_mul(2654435761) >> 9) & 0x1FFFF;
+      let mut tags = mask_tags("reader", mask, 12, 17);
+      wf_tag(&mut tags);
+      (Val::Reader(gen_reader(r, mask, wf)), tags)
+    }
+    10 | 11 | 12 => {
+      let j = j * 3 + (k % 16 - 10) as u32;
+      let mask = (j.wrapping_mul(2654435761) >> 8) & 0x7FFFF;
+      let mut tags = mask_tags("writer", mask, 12, 19);
+      wf_tag(&mut tags);
+      (Val::Writer(gen_writer(r, mask, wf)), tags)
+    }
+    13 | 14 => {
+      let j = j * 2 + (k % 16 - 13) as u32;
+      let mask = (j.wrapping_mul(2654435761) >> 10) & 0x1FFF;
+      (Val::Topic(gen_topic(r, mask)), mask_tags("topic", mask, 12, 13))
+    }
+    _ => (Val::Pmd(gen_pmd(r)), vec![]),
   }
 }
 
